@@ -50,7 +50,7 @@ vlib.coq_eval_cases = _eval_with_retry
 class P(vlib.Prop):
     pid = "C13"
     coq_dirs = ["Common", "C13", "Generated"]
-    coq_targets = ["C13/Properties.vo", "C13/Witness.vo", "C13/Harness.vo"]
+    coq_targets = ["C13/Properties.vo", "C13/Witness.vo", "C13/Harness.vo", "C13/Repaired.vo"]
     properties_module = "C13.Properties"
     properties_file = "C13/Properties.v"
     instance_obligations = []
